@@ -33,7 +33,7 @@ META = dict(
     rule="one evaluation = one symbolic path; non-trivial = the centre has at least two atoms and the run proposed at least "
          "one reaction",
 )
-WALL = dict(quick=170, thorough=1500)
+WALL = dict(quick=240, thorough=1500)
 MIN_PATHS = dict(quick=200, thorough=2000)
 
 
